@@ -23,7 +23,7 @@ pub fn prop() -> Prop {
          schema definition) is equal; second serialization is byte-identical; valid stays valid. \
          Non-trivial: at least one type (or the schema definition) has an extension; distinct by source text.",
     )
-    .random("rich-extensions", check, |t| if t == Tier::Quick { 120_000 } else { 1_200_000 }, |t| if t == Tier::Quick { 1200 } else { 1600 })
+    .random("rich-extensions", check, |t| if t == Tier::Quick { 150_000 } else { 1_200_000 }, |t| if t == Tier::Quick { 1200 } else { 1600 })
     .text(check_text)
     .assumptions(&[
         "a `schema` definition always keeps at least one root operation (a definition without one is not grammatical)",
@@ -195,10 +195,18 @@ fn not_equal_where(a: &Schema, b: &Schema) -> String {
 pub fn check_text(text: &str, ctx: &mut Ctx) -> Outcome {
     let s = match Schema::parse(text, "schema.graphql") {
         Ok(s) => s,
-        Err(_) => return ctx.skip("schema has build errors"),
+        Err(e) => {
+            if ctx.strict {
+                eprintln!("--- skipped, build errors: {:?}", crate::apollo::schema_walk::messages(&e.errors));
+            }
+            return ctx.skip("schema has build errors");
+        }
     };
     ctx.nontrivial = extension_count(&s) >= 1;
     let t = s.to_string();
+    if ctx.strict {
+        eprintln!("--- serialized:\n{t}");
+    }
     let s2 = match Schema::parse(&t, "reparsed.graphql") {
         Ok(s2) => s2,
         Err(e) => {
@@ -263,6 +271,9 @@ pub fn check(bytes: &[u8], ctx: &mut Ctx) -> Outcome {
     ctx.class(if st.explicit_schema { "schema:explicit" } else { "schema:implicit" });
     if st.schema_exts > 0 {
         ctx.class(if st.explicit_schema { "schema-ext:explicit" } else { "schema-ext:implicit" });
+    }
+    if st.root_omitted {
+        ctx.class("explicit-schema-omits-a-root");
     }
     if st.roots_in_ext > 0 {
         ctx.class("root-operation-in-extension");
